@@ -59,7 +59,8 @@ int reproc_read(reproc_t *p, REPROC_STREAM stream, uint8_t *buffer, size_t size)
 int reproc_write(reproc_t *p, const uint8_t *buffer, size_t size)
 { (void) p; strcpy(mock_last, "write"); mock_calls++; mock_ptr_arg = buffer; mock_size_arg = size; return mock_ret; }
 int reproc_close(reproc_t *p, REPROC_STREAM stream) { (void) p; strcpy(mock_last, "close"); mock_calls++; mock_int_arg = (int) stream; return mock_ret; }
-int reproc_wait(reproc_t *p, int timeout) { (void) p; strcpy(mock_last, "wait"); mock_calls++; mock_int_arg = timeout; return mock_ret; }
+/* (a wrapper that retried would loop for ever on a constant answer: after a few calls the mock gives in; the call count tells) */
+int reproc_wait(reproc_t *p, int timeout) { (void) p; strcpy(mock_last, "wait"); mock_calls++; mock_int_arg = timeout; return mock_calls > 4 ? 0 : mock_ret; }
 int reproc_terminate(reproc_t *p) { (void) p; strcpy(mock_last, "terminate"); mock_calls++; return mock_ret; }
 int reproc_kill(reproc_t *p) { (void) p; strcpy(mock_last, "kill"); mock_calls++; return mock_ret; }
 int reproc_stop(reproc_t *p, reproc_stop_actions stop) { (void) p; strcpy(mock_last, "stop"); mock_calls++; mock_stop = stop; return mock_ret; }
